@@ -16,13 +16,28 @@
 //                Active "span" kinds: DefaultSpan (valid / invalid-but-non-zero context), a SpanContext
 //                stored under the span key, a null pointer / non-span value under the span key, an
 //                unrelated key attached on top, real SDK spans (recording, ended, dropped by the sampler).
+//                Multi-step forms: a record created by one logger and emitted through ANOTHER logger of the
+//                same provider (enabled->enabled: exported once, scope of either logger; enabled->disabled
+//                and disabled->disabled: nothing; disabled->enabled is undefined behaviour in the unchanged
+//                library and not generated); processors held back at construction and added later with
+//                LoggerProvider::AddProcessor - before the first emit, between two emits, and BETWEEN
+//                CreateLogRecord and EmitLogRecord (0->1, 1->2, 2->3, ...): a processor that was configured
+//                when the record was created must get it exactly once with the full content, one added
+//                later may or may not (if it does: full content); an exporter must only ever be handed
+//                recordables of the type its own MakeRecordable() returns.  Scope configurator shapes:
+//                everything enabled except "off" / everything disabled except an allow list.
+//                Span churn burst: emit under span A, A is released (freed), span B starts at once (for a
+//                DefaultSpan the harness places B at A's address; SDK spans rely on the runs without
+//                quarantine), emit under B: the record carries B's ids.
 //   log_threads  2..3 real threads with their own active spans emit concurrently
 //   f5_witness / eventid_noname_witness   fixed witness cases (replay only, no search budget)
 // Oracle: a reference record model compared INSIDE each exporter's Export with the getters of the
 // SDK's ReadWriteLogRecord; values are copied out of the record's views by the harness' own visitor.
 #include <atomic>
 #include <chrono>
+#include <memory>
 #include <mutex>
+#include <new>
 #include <set>
 #include <unordered_map>
 #include <thread>
@@ -74,6 +89,9 @@ struct Captured
   int64_t res_key;
   bool has_res_key;
   int64_t marker;  // attribute "vh.marker": which emit this is
+  // the exporter was handed a recordable that is not of the type its own MakeRecordable() returns
+  // (every in-tree exporter static_casts what it gets): nothing was read from it
+  bool foreign = false;
 };
 
 struct Sink
@@ -131,8 +149,21 @@ public:
     ToOwned conv;
     for (auto &r : batch)
     {
-      auto &d = static_cast<sdkl::ReadWriteLogRecord &>(*r);
       Captured c;
+      sdkl::ReadWriteLogRecord *own = dynamic_cast<sdkl::ReadWriteLogRecord *>(r.get());
+      if (own == nullptr)
+      {
+        c.severity = 0;
+        c.body_is_set = false;
+        c.ts_ns = c.event_id = c.res_key = 0;
+        c.flags       = 0;
+        c.has_res_key = false;
+        c.marker      = -1;
+        c.foreign     = true;
+        sink_->records.push_back(std::move(c));
+        continue;
+      }
+      auto &d = *own;
       c.severity    = static_cast<int>(d.GetSeverity());
       c.body        = otel::nostd::visit(conv, d.GetBody());
       c.body_is_set = true;
@@ -212,6 +243,16 @@ struct Expected
   uint8_t alt_flags = 0;
   bool marker_attr = true;  // false: message-only overload, the marker is at the front of the body
   int logger;               // which logger (scope) emitted it
+  // the record was CREATED by another logger of the same provider (-1: by the emitting one).  The
+  // statement does not say whose scope such a record carries: either one is accepted.
+  int creator = -1;
+  // processors [0, must_reach) were configured when the record was created: each of them must get it
+  // exactly once.  A processor added later (AddProcessor between CreateLogRecord and EmitLogRecord, or
+  // after the emit) may or may not get it; if it does, the content must be complete.
+  size_t must_reach = 0;
+  // false: nothing may reach any exporter (null record, or emitted through a disabled logger)
+  bool exported          = true;
+  const char *why_silent = "";
 };
 
 struct LoggerInfo
@@ -223,13 +264,32 @@ struct LoggerInfo
 
 struct Setup
 {
-  std::vector<std::shared_ptr<Sink>> sinks;
+  std::vector<std::shared_ptr<Sink>> sinks;  // one per processor, configured or still held back
   std::vector<bool> is_batch;
-  bool any_batch = false;
+  bool any_batch = false;  // over ALL processors (also the held back ones)
   std::shared_ptr<sdkl::LoggerProvider> provider;
   std::vector<LoggerInfo> loggers;
   int64_t res_val = 0;
+  // processors [0, configured) are part of the provider; pending[k] owns sink configured + k and
+  // joins the provider through LoggerProvider::AddProcessor at a point the program chooses
+  size_t configured = 0;
+  std::vector<std::unique_ptr<sdkl::LogRecordProcessor>> pending;
 };
+
+// LoggerProvider::AddProcessor of the next held back processor (not thread safe by contract: only
+// ever called while no other thread uses the provider)
+bool add_pending(Setup &s, std::string &notes, const std::string &label, const char *when)
+{
+  if (s.pending.empty())
+    return false;
+  std::unique_ptr<sdkl::LogRecordProcessor> p = std::move(s.pending.front());
+  s.pending.erase(s.pending.begin());
+  notes += " " + label + "AddProcessor(" + (s.is_batch[s.configured] ? "batch" : "simple") + ") " +
+           std::to_string(s.configured) + "->" + std::to_string(s.configured + 1) + " " + when + "\n";
+  s.provider->AddProcessor(std::move(p));
+  ++s.configured;
+  return true;
+}
 
 Setup make_setup(vh::Case &c)
 {
@@ -260,10 +320,42 @@ Setup make_setup(vh::Case &c)
   }
   s.res_val     = static_cast<int64_t>(rd.below(100));
   auto resource = otel::sdk::resource::Resource::Create({{"service.name", "vh-c13"}, {"res.key", s.res_val}});
-  // scope "off" is disabled by the configurator
+  // scope "off" is disabled by the configurator, the scopes "lib<i>" are enabled: either everything is
+  // enabled except "off", or everything is disabled except the names "lib0".."lib2"
   using Cfg = otel::sdk::instrumentationscope::ScopeConfigurator<sdkl::LoggerConfig>;
-  auto configurator = std::make_unique<Cfg>(
-      Cfg::Builder(sdkl::LoggerConfig::Default()).AddConditionNameEquals("off", sdkl::LoggerConfig::Disabled()).Build());
+  const bool allow_list = rd.chance(25);
+  std::unique_ptr<Cfg> configurator;
+  if (allow_list)
+    configurator = std::make_unique<Cfg>(Cfg::Builder(sdkl::LoggerConfig::Disabled())
+                                             .AddConditionNameEquals("lib0", sdkl::LoggerConfig::Default())
+                                             .AddConditionNameEquals("lib1", sdkl::LoggerConfig::Default())
+                                             .AddConditionNameEquals("lib2", sdkl::LoggerConfig::Default())
+                                             .Build());
+  else
+    configurator = std::make_unique<Cfg>(Cfg::Builder(sdkl::LoggerConfig::Default())
+                                             .AddConditionNameEquals("off", sdkl::LoggerConfig::Disabled())
+                                             .Build());
+  if (allow_list)
+  {
+    c.tag("configurator:disabled-by-default+allow-list");
+    desc += "(configurator: disabled by default, lib0..2 enabled) ";
+  }
+  // the last `held` processors are not given to the constructor: they join later through
+  // LoggerProvider::AddProcessor (held == np: the provider starts with no processor at all)
+  size_t held = rd.weighted({12, 2, 1, 1});
+  if (held > np)
+    held = np;
+  for (size_t k = np - held; k < np; ++k)
+    s.pending.push_back(std::move(procs[k]));
+  procs.resize(np - held);
+  s.configured = np - held;
+  if (held)
+  {
+    desc += "(the last " + std::to_string(held) + " added later) ";
+    c.tag("processors-added-later");
+    if (s.configured == 0)
+      c.tag("provider-starts-with-0-processors");
+  }
   s.provider = std::make_shared<sdkl::LoggerProvider>(std::move(procs), resource, std::move(configurator));
   unsigned nl = 1 + rd.below(3);
   for (unsigned i = 0; i < nl; ++i)
@@ -716,6 +808,28 @@ struct SdkTracing
   }
 };
 
+// Storage for a DefaultSpan at an address the harness controls: "the allocator gives the next span the
+// block of the span that has just been freed" (what a production allocator does for back-to-back spans)
+// is then a property of the CASE, not of the allocator, the sanitizer's quarantine or the process history.
+// The slot is owned by the spans placed in it (deleter) and by the burst that uses it.
+struct SpanSlot
+{
+  alignas(16) unsigned char mem[sizeof(tr::DefaultSpan)];
+  bool live = false;
+};
+
+otel::nostd::shared_ptr<tr::Span> default_span_in(const std::shared_ptr<SpanSlot> &slot, const tr::SpanContext &cx)
+{
+  if (!slot || slot->live)
+    return otel::nostd::shared_ptr<tr::Span>(new tr::DefaultSpan(cx));
+  slot->live   = true;
+  tr::Span *sp = new (slot->mem) tr::DefaultSpan(cx);
+  return otel::nostd::shared_ptr<tr::Span>(std::shared_ptr<tr::Span>(sp, [slot](tr::Span *p) {
+    p->~Span();
+    slot->live = false;
+  }));
+}
+
 // one frame of the calling thread's context stack
 struct Active
 {
@@ -747,7 +861,9 @@ bool all_zero(const tr::SpanContext &cx)
 // pushes one frame; kind: 1 DefaultSpan(valid), 3 SpanContext under the span key, 4 null / non-span
 // value under the span key, 5 unrelated key on top, 6 DefaultSpan(invalid, usually not all-zero),
 // 7 SDK span (recording | ended | dropped)
-void push_frame(vh::Reader &rd, ThreadState &ts, size_t kind, std::string &notes, const std::string &label)
+void push_frame(vh::Reader &rd, ThreadState &ts, size_t kind, std::string &notes, const std::string &label,
+                int force_how = -1 /* kind 7: 0 recording, 1 ended, 2 dropped; -1 drawn */,
+                const std::shared_ptr<SpanSlot> &slot = nullptr /* kind 1: where the DefaultSpan is placed */)
 {
   namespace ctx = otel::context;
   Active f;
@@ -821,7 +937,7 @@ void push_frame(vh::Reader &rd, ThreadState &ts, size_t kind, std::string &notes
         ts.sdk.reset(new SdkTracing());
       ts.sdk->ids->tid = sg::gen_trace_id(rd);
       ts.sdk->ids->sid = sg::gen_span_id(rd);
-      size_t how       = rd.below(3);
+      size_t how       = force_how >= 0 ? static_cast<size_t>(force_how) : rd.below(3);
       ts.sdk->sampler->decision =
           how == 2 ? sdkt::Decision::DROP : (rd.coin() ? sdkt::Decision::RECORD_ONLY : sdkt::Decision::RECORD_AND_SAMPLE);
       auto span = ts.sdk->tracer->StartSpan("vh-span");
@@ -839,7 +955,7 @@ void push_frame(vh::Reader &rd, ThreadState &ts, size_t kind, std::string &notes
     {
       f.cx      = sg::gen_span_context(rd, true);
       f.present = true;
-      otel::nostd::shared_ptr<tr::Span> sp(new tr::DefaultSpan(f.cx));
+      otel::nostd::shared_ptr<tr::Span> sp = default_span_in(slot, f.cx);
       f.scope.reset(new tr::Scope(sp));
       notes += " " + label + "activate " + sg::show_ctx(f.cx) + "\n";
       break;
@@ -852,6 +968,7 @@ void push_frame(vh::Reader &rd, ThreadState &ts, size_t kind, std::string &notes
 struct EmitStats
 {
   bool nonscalar = false, active_span = false, deferred_nonscalar = false;
+  bool add_in_flight = false;  // AddProcessor between CreateLogRecord and EmitLogRecord of an exported record
   std::set<std::string> tags;
 };
 
@@ -889,10 +1006,12 @@ void do_emit(vh::Reader &rd, Setup &s, ThreadState &ts, int64_t marker, std::vec
   std::unique_ptr<Store> store(new Store());
   sg::Arena &a = store->arena;
   size_t li    = rd.below(static_cast<uint32_t>(s.loggers.size()));
+  size_t emit_li = li;  // the logger the record is emitted through (differs for cross-logger emits)
   LoggerInfo &L = s.loggers[li];
   Expected e;
   e.marker      = marker;
   e.logger      = static_cast<int>(li);
+  e.must_reach  = s.configured;
   e.severity    = static_cast<int>(lg::Severity::kInvalid);
   e.body_given  = false;
   e.ts_given    = false;
@@ -1187,6 +1306,7 @@ void do_emit(vh::Reader &rd, Setup &s, ThreadState &ts, int64_t marker, std::vec
     // CreateLogRecord + setters in a generated order + EmitLogRecord(record [, args...])
     what = "Create+set[";
     otel::nostd::unique_ptr<lg::LogRecord> rec = L.logger->CreateLogRecord();
+    e.must_reach                               = s.configured;  // the processors configured at creation
     // the identity is taken from the span active at creation; the active span may change before Emit
     bool switched = false;
     if (rec && rd.chance(25))
@@ -1286,12 +1406,50 @@ void do_emit(vh::Reader &rd, Setup &s, ThreadState &ts, int64_t marker, std::vec
     size_t with_args = rd.weighted({6, 1, 1, 1, 1});
     sg::ArenaKV akv2(attr_list2, a);
     const otel::common::KeyValueIterable &kv2 = akv2;
+    // --- the record is emitted through ANOTHER logger of the same provider
+    //   enabled  -> enabled : exported once (the scope of either logger is accepted)
+    //   enabled  -> disabled: "a disabled logger emits nothing"
+    //   disabled -> disabled: nothing
+    //   disabled -> enabled : NOT generated.  A disabled logger hands out the API's NoopLogRecord, and
+    //                         sdk Logger::EmitLogRecord static_casts whatever it gets to sdk::logs::Recordable:
+    //                         undefined behaviour on the unchanged tree (UBSan: downcast of a NoopLogRecord,
+    //                         logger.cc:119; SIGSEGV in the plain build).  Observation outside the statement,
+    //                         which only speaks about records "emitted through an enabled logger" that carry
+    //                         supplied content; the record goes through its creator instead.
+    if (s.loggers.size() >= 2 && rd.weighted({7, 3}) == 1)
+    {
+      size_t lj = (li + 1 + rd.below(static_cast<uint32_t>(s.loggers.size() - 1))) % s.loggers.size();
+      if (!L.enabled && s.loggers[lj].enabled)
+        st.tags.insert("cross-logger:disabled->enabled (not generated: UB in the unchanged library)");
+      else
+      {
+        emit_li   = lj;
+        e.creator = static_cast<int>(li);
+        e.logger  = static_cast<int>(lj);
+        st.tags.insert(std::string("cross-logger:") + (L.enabled ? "enabled" : "disabled") + "->" +
+                       (s.loggers[lj].enabled ? "enabled" : "disabled"));
+        what += " through-logger" + std::to_string(lj);
+      }
+    }
+    LoggerInfo &M = s.loggers[emit_li];
+    // --- LoggerProvider::AddProcessor between CreateLogRecord and EmitLogRecord: the processors that
+    //     were configured at creation still get the record; the new one may or may not
+    if (!s.pending.empty() && !null_record && rd.chance(50))
+    {
+      const size_t before = s.configured;
+      unsigned nadd       = 1 + static_cast<unsigned>(rd.weighted({4, 1}));
+      for (unsigned q = 0; q < nadd; ++q)
+        add_pending(s, notes, label, "between CreateLogRecord and EmitLogRecord");
+      st.tags.insert("AddProcessor-in-flight:" + std::to_string(before) + "->" + std::to_string(s.configured) +
+                     (L.enabled && M.enabled ? "" : " (disabled logger)"));
+      st.add_in_flight = st.add_in_flight || (L.enabled && M.enabled);
+    }
     switch (with_args)
     {
       case 1:
       {
         otel::common::AttributeValue b2(static_cast<int64_t>(7000 + marker));
-        L.logger->EmitLogRecord(std::move(rec), sev2, b2);
+        M.logger->EmitLogRecord(std::move(rec), sev2, b2);
         e.severity   = static_cast<int>(sev2);
         e.body_given = true;
         e.body       = sg::MValue(static_cast<int64_t>(7000 + marker));
@@ -1299,19 +1457,19 @@ void do_emit(vh::Reader &rd, Setup &s, ThreadState &ts, int64_t marker, std::vec
         break;
       }
       case 2:
-        L.logger->EmitLogRecord(std::move(rec), kv2);
+        M.logger->EmitLogRecord(std::move(rec), kv2);
         sg::apply_last_wins(e.attrs, attr_list2);
         what += " Emit(rec,A2)";
         break;
       case 3:
-        L.logger->EmitLogRecord(std::move(rec), xctx);
+        M.logger->EmitLogRecord(std::move(rec), xctx);
         set_identity(xctx);
         what += " Emit(rec,C)";
         break;
       case 4:
       {
         std::chrono::system_clock::time_point tp = tp_of(ts_ns + 1000);
-        L.logger->EmitLogRecord(std::move(rec), tp, lg::EventId(ev_id + 2, ev_name));
+        M.logger->EmitLogRecord(std::move(rec), tp, lg::EventId(ev_id + 2, ev_name));
         e.ts_given    = true;
         e.ts_ns       = ts_ns + 1000;
         e.event_given = true;
@@ -1321,7 +1479,7 @@ void do_emit(vh::Reader &rd, Setup &s, ThreadState &ts, int64_t marker, std::vec
         break;
       }
       default:
-        L.logger->EmitLogRecord(std::move(rec));
+        M.logger->EmitLogRecord(std::move(rec));
         break;
     }
     if (with_args)
@@ -1353,9 +1511,26 @@ void do_emit(vh::Reader &rd, Setup &s, ThreadState &ts, int64_t marker, std::vec
   }
   if (store)
     store->release();
-  bool exported = L.enabled && !(style == 1 && null_record);
-  if (exported)
-    expected.push_back(e);
+  // "a null record is ignored and a disabled logger emits nothing": such an emit stays in the list so
+  // that every exporter can be checked NOT to have it
+  if (style == 1 && null_record)
+  {
+    e.exported   = false;
+    e.why_silent = "the record was null";
+  }
+  else if (!s.loggers[emit_li].enabled)
+  {
+    e.exported   = false;
+    e.why_silent = e.creator >= 0 && L.enabled
+                       ? "it was emitted through a DISABLED logger (created by an enabled one)"
+                       : "it was emitted through a disabled logger";
+  }
+  else if (!L.enabled)
+  {
+    e.exported   = false;  // unreachable by construction (disabled -> enabled is not generated)
+    e.why_silent = "it was created by a disabled logger";
+  }
+  expected.push_back(e);
 }
 
 void compare(vh::Case &c, const Expected &e, const Captured &g, const Setup &s, const std::string &who)
@@ -1380,9 +1555,16 @@ void compare(vh::Case &c, const Expected &e, const Captured &g, const Setup &s, 
                << (e.has_alt ? " (or " + e.alt_trace_id + "/" + e.alt_span_id + "/f" + std::to_string(e.alt_flags) + ")"
                              : std::string()));
   const LoggerInfo &L = s.loggers[static_cast<size_t>(e.logger)];
-  VH_CHECK(c, g.scope_name == L.name && g.scope_version == L.version && g.scope_schema == L.schema,
+  auto scope_is       = [&](const LoggerInfo &x) {
+    return g.scope_name == x.name && g.scope_version == x.version && g.scope_schema == x.schema;
+  };
+  // created by one logger, emitted through another: the scope of either is accepted
+  const LoggerInfo *K = e.creator >= 0 ? &s.loggers[static_cast<size_t>(e.creator)] : nullptr;
+  VH_CHECK(c, scope_is(L) || (K != nullptr && scope_is(*K)),
            who << ": instrumentation scope " << g.scope_name << "/" << g.scope_version << "/" << g.scope_schema
-               << " expected " << L.name << "/" << L.version << "/" << L.schema);
+               << " expected " << L.name << "/" << L.version << "/" << L.schema
+               << (K ? " (or the creating logger's " + K->name + "/" + K->version + "/" + K->schema + ")"
+                     : std::string()));
   VH_CHECK(c, g.has_res_key && g.res_key == s.res_val, who << ": the record does not reference the provider's resource");
 }
 
@@ -1394,21 +1576,37 @@ void finish(vh::Case &c, Setup &s, const std::vector<Expected> &expected,
   for (size_t i = 0; i < s.sinks.size(); ++i)
   {
     std::lock_guard<std::mutex> g(s.sinks[i]->mu);
-    std::string who = "processor " + std::to_string(i) + (s.is_batch[i] ? " (batch)" : " (simple)");
+    std::string who = "processor " + std::to_string(i) + (s.is_batch[i] ? " (batch)" : " (simple)") +
+                      (i >= s.configured ? " [never added to the provider]" : "");
     std::map<int64_t, const Captured *> by_marker;
     for (auto &r : s.sinks[i]->records)
     {
+      VH_CHECK(c, !r.foreign, who << ": the exporter was handed a recordable that its own MakeRecordable() did not create");
       VH_CHECK(c, r.marker >= 0, who << ": a record without the emit marker was exported");
       VH_CHECK(c, by_marker.emplace(r.marker, &r).second, who << ": emit #" << r.marker << " was exported twice");
     }
-    VH_CHECK(c, by_marker.size() == expected.size(), who << ": " << by_marker.size() << " records exported, expected "
-                                                         << expected.size());
+    size_t accounted = 0;
     for (auto &e : expected)
     {
       auto it = by_marker.find(e.marker);
-      VH_CHECK(c, it != by_marker.end(), who << ": emit #" << e.marker << " never reached the exporter");
-      compare(c, e, *it->second, s, who + " emit #" + std::to_string(e.marker));
+      if (!e.exported)
+      {
+        VH_CHECK(c, it == by_marker.end(), who << ": emit #" << e.marker << " was exported (scope "
+                                               << (it == by_marker.end() ? std::string() : it->second->scope_name)
+                                               << ") although " << e.why_silent);
+        continue;
+      }
+      // configured when the record was created: must have it.  Added later: may have it.
+      if (i < e.must_reach)
+        VH_CHECK(c, it != by_marker.end(), who << ": emit #" << e.marker << " never reached the exporter");
+      if (it != by_marker.end())
+      {
+        ++accounted;
+        compare(c, e, *it->second, s, who + " emit #" + std::to_string(e.marker));
+      }
     }
+    VH_CHECK(c, by_marker.size() == accounted, who << ": " << by_marker.size() << " records exported, only " << accounted
+                                                   << " of them belong to an emit of this program");
   }
   for (auto &l : s.loggers)
     l.logger = otel::nostd::shared_ptr<lg::Logger>(nullptr);
@@ -1442,6 +1640,55 @@ void one_scope_op(vh::Reader &rd, ThreadState &ts, std::string &notes, const std
   else if (k != 0)
     push_frame(rd, ts, k, notes, label);
 }
+
+// Span churn burst: a record is emitted under span A; A is deactivated and its last reference dropped
+// (the object is freed); a NEW span B of the same concrete type starts and is activated right away (an
+// allocator that reuses freed blocks puts B at A's old address); the caller emits the next record under
+// B with no record under any other span in between.  That record must carry B's ids: anything that
+// remembers "the active span" by object address instead of by identity shows here.
+void maybe_span_churn(vh::Reader &rd, Setup &s, ThreadState &ts, int64_t &marker, std::vector<Expected> &expected,
+                      std::string &notes, EmitStats &st, std::vector<std::unique_ptr<Store>> &parked,
+                      const std::string &label)
+{
+  if (!rd.chance(15))
+    return;
+  // 0 SDK span (recording), 1 DefaultSpan, 2 SDK span (ended before it is activated), 3 SDK span (dropped)
+  static const char *const names[] = {"sdk-span-recording", "DefaultSpan", "sdk-span-ended", "sdk-span-dropped"};
+  const size_t which               = rd.weighted({4, 3, 1, 1});
+  const size_t kind                = which == 1 ? 1 : 7;
+  const int how                    = which == 0 ? 0 : (which == 2 ? 1 : (which == 3 ? 2 : -1));
+  notes += " " + label + "[span churn: " + names[which] + " A, emit, release A, start B, emit]\n";
+  // DefaultSpan: A and B are placed in the same storage by the harness; SDK spans are allocated inside the
+  // tracer, B lands on A's address when the allocator reuses freed blocks at once (runs without quarantine)
+  std::shared_ptr<SpanSlot> slot = which == 1 ? std::make_shared<SpanSlot>() : nullptr;
+  push_frame(rd, ts, kind, notes, label, how, slot);
+  do_emit(rd, s, ts, marker++, expected, notes, st, parked, label);
+  ts.scopes.pop_back();  // the Scope held the last reference: span A is destroyed here
+  notes += " " + label + "deactivate\n";
+  const bool same_address = slot && !slot->live;
+  push_frame(rd, ts, kind, notes, label, how, slot);
+  st.tags.insert(std::string("span-churn:") + names[which] + (same_address ? " (B at A's address)" : ""));
+}
+
+// No state may leak from one case into the next - also none the LIBRARY keeps per thread.  Every case
+// therefore starts from the same situation: the last record this thread created was created under a
+// span that is alive for the whole process (so its address is never handed out again), through a
+// provider of its own without processors.  Whatever a failing case needs, it has to contain itself;
+// the saved replay then fails in a fresh process too.
+void reset_thread_logging_state()
+{
+  static sdkl::LoggerProvider *provider = new sdkl::LoggerProvider();
+  static otel::nostd::shared_ptr<lg::Logger> *logger =
+      new otel::nostd::shared_ptr<lg::Logger>(provider->GetLogger("vh-sentinel", "vh-sentinel"));
+  static otel::nostd::shared_ptr<tr::Span> *span = []() {
+    const uint8_t t[16] = {0x5e, 0x17, 0x1e, 1, 2, 3, 4, 5, 6, 7, 8, 9, 10, 11, 12, 13};
+    const uint8_t i[8]  = {0x5e, 0x17, 0x1e, 1, 2, 3, 4, 5};
+    return new otel::nostd::shared_ptr<tr::Span>(
+        new tr::DefaultSpan(tr::SpanContext(tr::TraceId(t), tr::SpanId(i), tr::TraceFlags(0), false)));
+  }();
+  tr::Scope scope(*span);
+  otel::nostd::unique_ptr<lg::LogRecord> rec = (*logger)->CreateLogRecord();
+}
 }  // namespace
 
 void emit_tags(vh::Case &c, const std::set<std::string> &tags)
@@ -1452,9 +1699,10 @@ void emit_tags(vh::Case &c, const std::set<std::string> &tags)
 
 VH_TARGET(log_program, 8,
           "non-trivial when a non-scalar body/attribute was emitted (its caller storage is released right "
-          "after Emit), or a span was active at an emit, or 2+ processors are configured; distinct = "
-          "distinct program text")
+          "after Emit), or a span was active at an emit, or 2+ processors are configured, or a processor was "
+          "added between CreateLogRecord and EmitLogRecord of an exported record; distinct = distinct program text")
 {
+  reset_thread_logging_state();
   Setup s = make_setup(c);
   std::vector<Expected> expected;
   std::vector<std::unique_ptr<Store>> parked;
@@ -1462,11 +1710,16 @@ VH_TARGET(log_program, 8,
   std::string notes;
   {
     ThreadState ts;
-    unsigned n = 1 + c.rd.below(6);
+    unsigned n     = 1 + c.rd.below(6);
+    int64_t marker = 0;
     for (unsigned i = 0; i < n && (i < 1 || !c.rd.exhausted()); ++i)
     {
       maybe_scope_op(c.rd, ts, notes, "");
-      do_emit(c.rd, s, ts, static_cast<int64_t>(i), expected, notes, st, parked, "");
+      // a held back processor joins between two emits (or before the first one)
+      if (!s.pending.empty() && c.rd.chance(25) && add_pending(s, notes, "", i == 0 ? "before the first emit" : "between two emits"))
+        st.tags.insert(i == 0 ? "AddProcessor:before-first-emit" : "AddProcessor:between-emits");
+      maybe_span_churn(c.rd, s, ts, marker, expected, notes, st, parked, "");
+      do_emit(c.rd, s, ts, marker++, expected, notes, st, parked, "");
     }
     ts.clear();
     st.tags.insert(ts.tags.begin(), ts.tags.end());
@@ -1479,7 +1732,7 @@ VH_TARGET(log_program, 8,
   if (st.deferred_nonscalar)
     c.tag("non-scalar+deferred-export");
   emit_tags(c, st.tags);
-  c.nontrivial = st.nonscalar || st.active_span || s.sinks.size() >= 2;
+  c.nontrivial = st.nonscalar || st.active_span || s.sinks.size() >= 2 || st.add_in_flight;
   finish(c, s, expected, parked);
 }
 
@@ -1488,6 +1741,13 @@ VH_TARGET(log_threads, 10,
           "threads emitted with an active span; distinct = distinct program text")
 {
   Setup s     = make_setup(c);
+  {
+    // AddProcessor is not thread safe: the held back processors join before the threads start
+    std::string n0;
+    while (add_pending(s, n0, "", "before the threads start"))
+      c.tag("AddProcessor:before-first-emit");
+    c.note(n0);
+  }
   unsigned nt = 2 + c.rd.below(2);
   std::vector<std::vector<uint8_t>> slices(nt);
   for (unsigned t = 0; t < nt; ++t)
@@ -1504,12 +1764,13 @@ VH_TARGET(log_threads, 10,
     ths.emplace_back([&, t]() {
       vh::Reader rd(slices[t].data(), slices[t].size());
       ThreadState ts;
-      unsigned n = 1 + rd.below(4);
+      unsigned n     = 1 + rd.below(4);
+      int64_t marker = static_cast<int64_t>(t * 1000);
       for (unsigned i = 0; i < n; ++i)
       {
         maybe_scope_op(rd, ts, notes[t], "T" + std::to_string(t) + " ");
-        do_emit(rd, s, ts, static_cast<int64_t>(t * 1000 + i), expected[t], notes[t], st[t], parked[t],
-                "T" + std::to_string(t) + " ");
+        maybe_span_churn(rd, s, ts, marker, expected[t], notes[t], st[t], parked[t], "T" + std::to_string(t) + " ");
+        do_emit(rd, s, ts, marker++, expected[t], notes[t], st[t], parked[t], "T" + std::to_string(t) + " ");
       }
       ts.clear();
       st[t].tags.insert(ts.tags.begin(), ts.tags.end());
